@@ -24,6 +24,24 @@ PROPS = {
             'level_note': _STORE_NOTE},
 }
 
+_AR_NOTE = ('Trusted: TLC/SANY, the JVM, BigInt/FxpMath/FxpOps (cross-checked: BigInt vs native Int; raw-path and repr-path transcriptions in FxpAlgo vs '
+            '"exact result quantized once" in FxpOps on every code pair of every small format pair), NumPy for building operand arrays, harness/x_arith.py '
+            '(reads val, dtype sizes, status, config of the returned object). Operands are built from integer codes (raw=True) so their values are exact.')
+PROPS.update({
+    'C07': {'module': 'arith',
+            'technique': 'TLC exhaustive model check over all pairs of small formats and all code pairs (MC_Arith: raw-path algorithm exact under the documented growth rules, tightness, monotonicity) + replay of every pair on the real code (3 routes, raw/repr, scalars, broadcasting) + TLC trace validation of seeded wide formats and random expression trees',
+            'level_text': 'For every pair of formats with n_word<=W (any signedness mix, n_frac -1..n_word+1) TLC checks on every pair of codes that the transcribed raw path returns the exact result in the growth-rule format without flags (unsigned negative difference = quantized); the same pairs are executed on the real Fxp through operators, fxpmath.add/sub/mul and np.add/subtract/multiply and judged by TLC (format = growth rule, value exact by dyadic comparison, no flag); formats up to 40 bits with result word <=53 and expression trees are sampled at extreme/near-extreme/random codes.',
+            'level_note': _AR_NOTE},
+    'C08': {'module': 'arith',
+            'technique': 'TLC exhaustive model check (raw path = repr path = exact result quantized once, for all policies x 10 modes) + replay on the real code incl. out/out_like/constants/unary + TLC trace validation of seeded formats up to 12 bits',
+            'level_text': 'For all operand format pairs with n_word<=W, n_int>=0, all sizing policies, all 10 governing mode combinations and every code pair TLC checks that both calculation methods equal the exact result quantized once; on the real code the result format, the configuration the result carries (first operand / out / out_like), identity with out, every code and the overflow/underflow flags are judged by TLC for operators and functions, raw and repr, Python-number constants on either side under op_input_size same/best, and unary minus/plus/abs.',
+            'level_note': _AR_NOTE},
+    'C09': {'module': 'arith',
+            'technique': 'TLC exhaustive model check of the pre-scaled floor division against cross-multiplied neighbour/floor/modulo relations + replay of every code pair (divisor != 0) on the real code, raw and repr, 3 roundings + TLC trace validation of seeded formats with result word <=53',
+            'level_text': 'For all pairs of formats with n_word<=W (n_frac 0..n_word) and every code pair with non-zero divisor TLC checks that the transcribed algorithms satisfy: quotient is the floor or ceiling neighbour on the result grid and never overflows the optimal format, x//y is floor(x/y), x%y = x - y*floor(x/y) with the divisor sign; every pair is executed on the real code (/, //, %; raw and repr; trunc/around/floor) and the relations plus (x//y)*y + x%y = x are evaluated by TLC on the observed codes.',
+            'level_note': _AR_NOTE},
+})
+
 NOT_APPLICABLE = {}
 
 HOOKS = {
@@ -35,11 +53,11 @@ HOOKS = {
 }
 
 ENGINES = [
-    {'name': 'tlc-exhaustive', 'path': 'spec/mc/MC_*.tla', 'serves_properties': ['C01', 'C03', 'C05'],
+    {'name': 'tlc-exhaustive', 'path': 'spec/mc/MC_*.tla', 'serves_properties': sorted(PROPS),
      'kind_free_text': 'TLC breadth-first model checking of the small worlds (algorithm-shaped FxpAlgo against property-level FxpMath) and generation of case rows'},
-    {'name': 'tlc-trace-validation', 'path': 'spec/JudgeBody.tla (JudgeB over BigInt, JudgeN native)', 'serves_properties': ['C01', 'C03', 'C05'],
+    {'name': 'tlc-trace-validation', 'path': 'spec/JudgeBody.tla (JudgeB over BigInt, JudgeN native)', 'serves_properties': sorted(PROPS),
      'kind_free_text': 'total-verdict validation of observation rows recorded from the real implementation; one TLC state per row'},
-    {'name': 'replayer', 'path': 'harness/', 'serves_properties': ['C01', 'C03', 'C05'],
+    {'name': 'replayer', 'path': 'harness/', 'serves_properties': sorted(PROPS),
      'kind_free_text': 'executes TLC-generated cases and seeded wide-format programs on /repo\'s working tree and records observations (never computes expected values)'},
 ]
 
@@ -47,32 +65,60 @@ NOTES = ('All checks: ./check <id> --tier quick|thorough [--seed N]; exit 0 held
          'defects (open) and repaired ones (fixed). See DESIGN.md.')
 
 
+def _ext(t):
+    return ((-(1 << (t['w'] - 1)), (1 << (t['w'] - 1)) - 1) if t['s'] else (0, (1 << t['w']) - 1))
+
+
 def default_account(chk, obs):
-    """evaluations = judged elements; non-trivial = distinct elements whose write raised a flag or that sit in an error row
-    (measured from the observations, no oracle involved)."""
+    """evaluations = judged elements.  distinct non-trivial cases, measured from the observations only (no oracle):
+    store rows - distinct (format, modes, input) whose write raised a flag; arithmetic/division rows - distinct (op, formats,
+    operand codes) with an operand at an extreme code of its format or a flagged result; error rows - distinct (route, carrier, error)."""
+    from .common import unwint
     ev = 0
     seen = set()
     for row in obs:
-        n = len(row.get('v', [])) or 1
-        ev += n
-        if row.get('k') == 'error':
-            seen.add(('err', row.get('route'), row.get('carrier'), row.get('err')))
+        k = row.get('k')
+        if k == 'error':
+            ev += 1
+            seen.add(('err', row.get('route'), row.get('carrier'), row.get('err'), row.get('op')))
             continue
-        fo, fu, fi = row.get('fo', []), row.get('fu', []), row.get('fi', [])
-        if row.get('agg'):
-            if fo and (fo[0] or fu[0] or fi[0]):
-                seen.add((row.get('k'), row.get('s'), row.get('w'), row.get('f'), row.get('r'), row.get('o'), row.get('carrier'), row.get('route'), 'agg'))
+        if k == 'store':
+            n = len(row.get('v', []))
+            ev += n
+            fo, fu, fi = row.get('fo', []), row.get('fu', []), row.get('fi', [])
+            if row.get('agg'):
+                if fo and (fo[0] or fu[0] or fi[0]):
+                    seen.add((k, row.get('s'), row.get('w'), row.get('f'), row.get('r'), row.get('o'), row.get('carrier'), row.get('route'), 'agg'))
+            else:
+                for i in range(min(n, len(fo))):
+                    if fo[i] or fu[i] or fi[i]:
+                        v = row['v'][i]
+                        seen.add((row.get('s'), row.get('w'), row.get('f'), row.get('r'), row.get('o'), tuple(v['m']), v['e']))
+        elif k in ('arith', 'div', 'arithc', 'unary'):
+            cx = row.get('cx', [])
+            cy = row.get('cy', cx)
+            ev += len(cx)
+            ex, ey = _ext(row['x']), _ext(row.get('y', row['x']))
+            key = (k, row.get('op'), row['x']['s'], row['x']['w'], row['x']['f'], row.get('y', {}).get('s'), row.get('y', {}).get('w'), row.get('y', {}).get('f'))
+            for a, b in zip(cx, cy):
+                ia, ib = unwint(a), unwint(b)
+                if ia in ex or ib in ey:
+                    seen.add(key + (ia, ib))
         else:
-            for i in range(min(n, len(fo))):
-                if fo[i] or fu[i] or fi[i]:
-                    v = row['v'][i]
-                    seen.add((row.get('s'), row.get('w'), row.get('f'), row.get('r'), row.get('o'), tuple(v['m']), v['e']))
-        if len(chk.samples) < 5 and n:
-            s = {k: row[k] for k in row if k not in ('v', 'c', 'rb', 'fo', 'fu', 'fi')}
-            s['first_elements'] = {'v': row.get('v', [])[:3], 'c': row.get('c', [])[:3]}
-            chk.samples.append(s)
+            ev += max(1, len(row.get('v', [])) if isinstance(row.get('v'), list) else 1)
+            nt = row.get('nt')
+            if nt:
+                for x in nt:
+                    seen.add((k, str(x)))
+        if len(chk.samples) < 5:
+            sm = {kk: row[kk] for kk in row if not isinstance(row[kk], list) or len(row[kk]) <= 3}
+            for kk in ('v', 'c', 'cx', 'cy', 'cz'):
+                if isinstance(row.get(kk), list):
+                    sm[kk + '_first'] = row[kk][:3]
+            chk.samples.append(sm)
     chk.evaluations += ev
     chk.nontrivial += len(seen)
-    chk.rule = ('cases: every (configuration, input) of the TLC small world executed on the real code through the carriers/routes of the '
-                'property, plus seeded boundary-directed wide-format stores; non-trivial = distinct (format, modes, input) whose write raised '
-                'overflow/underflow/inaccuracy (i.e. rounding or range handling actually happened), or an array write that did, or a raised error')
+    chk.rule = ('cases = every (configuration, input/operand codes) of the TLC small world executed on the real code plus seeded '
+                'boundary-directed wide-format cases; non-trivial (measured from observations, distinct): stores whose write raised '
+                'overflow/underflow/inaccuracy; arithmetic/division cases with an operand at an extreme code of its format; other kinds: the '
+                'boundary tags the executor attached (row.nt); raised errors by (route, carrier, type)')
